@@ -39,6 +39,12 @@ func TestURLParseAgainstStdlib(t *testing.T) {
 		if rerr != nil {
 			return
 		}
+		if ru.Path != mu.Path && ru.Opaque == "" {
+			bad++
+			if bad < 20 {
+				t.Errorf("%q: real Path %q model Path %q", s, ru.Path, mu.Path)
+			}
+		}
 		if ru.Scheme != mu.Scheme || (ru.Host == "") != (mu.Host == "") || (ru.Opaque == "") != (mu.Opaque == "") || ru.RawQuery != mu.RawQuery {
 			bad++
 			if bad < 20 {
@@ -65,5 +71,37 @@ func TestRedirectAgainstStdlib(t *testing.T) {
 			}
 		}
 	})
+	t.Logf("compared %d strings, %d mismatches", n, bad)
+}
+
+// TestURLParsePathEscapes: the unescaped Path against the stdlib over an alphabet of escapes.
+func TestURLParsePathEscapes(t *testing.T) {
+	const al = "/%25FCf\\a?"
+	n, bad := 0, 0
+	var rec func(prefix []byte, k int)
+	rec = func(prefix []byte, k int) {
+		s := string(prefix)
+		n++
+		ru, rerr := url.Parse(s)
+		mu, merr := URLParse(s)
+		if (rerr == nil) != (merr == nil) {
+			bad++
+			if bad < 20 {
+				t.Errorf("%q: real err=%v model err=%v", s, rerr, merr)
+			}
+		} else if rerr == nil && ru.Opaque == "" && (ru.Path != mu.Path || ru.Host != mu.Host && (ru.Host == "") != (mu.Host == "")) {
+			bad++
+			if bad < 20 {
+				t.Errorf("%q: real Path %q model Path %q", s, ru.Path, mu.Path)
+			}
+		}
+		if k == 0 {
+			return
+		}
+		for i := 0; i < len(al); i++ {
+			rec(append(prefix, al[i]), k-1)
+		}
+	}
+	rec(nil, 7)
 	t.Logf("compared %d strings, %d mismatches", n, bad)
 }
